@@ -1,6 +1,8 @@
 """C11 -- a cache file cut off at any byte is harmless (fault enumeration)."""
 from __future__ import annotations
 
+import builtins
+import errno
 import io
 import os
 import pickle as real_pickle
@@ -14,6 +16,7 @@ from vf import common, driver, reqs, validate
 from vf.common import Check, Scratch
 from vf.trees import Tree
 
+from pygopherd.handlers import base as basemod  # noqa: E402
 from pygopherd.handlers import dir as dirmod  # noqa: E402
 
 VIEWS = ["gopher", "gopherp+", "gopherp$", "http", "wap", "gemini", "spartan", "gophers", "https"]
@@ -132,26 +135,107 @@ def zip_cache_enumeration(chk: Check, sc: Scratch, stride: int) -> None:
         site.close()
 
 
-class DiskFullShim:
-    """`pickle` stand-in for one request: the dump reaches the file up to byte N, then the write
-    fails with ENOSPC (a full disk), exactly as the kernel would report it to the real writer."""
+class CacheFileShim:
+    """Stands in for the name `open` inside pygopherd.handlers.base (the one place the server opens
+    files of the real file system): every file is opened for real; for the directory cache file
+      * a write-open returns a proxy whose write() can pause between two halves (the window in which a
+        reader observes a truncated file) or fail with ENOSPC once N bytes have reached the file (a full disk);
+      * a read-open is classified by what it saw (did it overlap a write in progress, was the content
+        loadable) and hands exactly that snapshot to the caller.
+    Independent of how the server serialises the listing."""
 
-    def __init__(self, n):
-        self.n = n
-        self.fired = 0
-        for name in ("HIGHEST_PROTOCOL", "PickleError", "UnpicklingError", "PicklingError", "loads", "dumps", "load"):
-            setattr(self, name, getattr(real_pickle, name))
+    def __init__(self, rng=None, pause: bool = False, full_after: typing.Optional[int] = None):
+        self.lock = threading.Lock()
+        self.rng = rng
+        self.pause = pause
+        self.full_after = full_after
+        self.writes_in_progress = 0
+        self.n_loads = self.n_dumps = self.loads_overlapping_dump = self.partial_reads = self.enospc_raised = 0
 
-    def dump(self, obj, fp, protocol=None):
-        data = real_pickle.dumps(obj, protocol)
-        if self.n >= len(data):
-            fp.write(data)
-            return
-        fp.write(data[:self.n])
-        fp.flush()
-        self.fired += 1
-        import errno
-        raise OSError(errno.ENOSPC, os.strerror(errno.ENOSPC))
+    def install(self):
+        basemod.open = self.open
+
+    def remove(self):
+        try:
+            del basemod.open
+        except AttributeError:
+            pass
+
+    def open(self, path, mode="r", *a, **kw):
+        fp = builtins.open(path, mode, *a, **kw)
+        try:
+            name = os.path.basename(os.fsencode(path))
+        except TypeError:
+            return fp
+        if name != CACHE or "b" not in mode:
+            return fp
+        if "r" in mode and "+" not in mode:
+            data = fp.read()
+            fp.close()
+            with self.lock:
+                self.n_loads += 1
+                if self.writes_in_progress:
+                    self.loads_overlapping_dump += 1
+            try:
+                real_pickle.loads(data)
+            except Exception:
+                with self.lock:
+                    self.partial_reads += 1
+            return io.BytesIO(data)
+        with self.lock:
+            self.n_dumps += 1
+            self.writes_in_progress += 1
+        return _WriteProxy(self, fp)
+
+
+class _WriteProxy:
+    def __init__(self, shim: CacheFileShim, fp):
+        self._shim, self._fp, self._written, self._closed = shim, fp, 0, False
+        if shim.pause:
+            time.sleep(shim.rng.choice([0.0002, 0.001, 0.002]))      # open (and truncated), nothing written yet
+
+    def write(self, data):
+        sh = self._shim
+        data = bytes(data)
+        if sh.full_after is not None:
+            room = max(0, sh.full_after - self._written)
+            if len(data) > room:
+                self._fp.write(data[:room])
+                self._fp.flush()
+                self._written += room
+                with sh.lock:
+                    sh.enospc_raised += 1
+                raise OSError(errno.ENOSPC, os.strerror(errno.ENOSPC))
+        if sh.pause and len(data) > 1:
+            with sh.lock:
+                cut = sh.rng.randrange(0, len(data))
+                pause = sh.rng.choice([0.0002, 0.001, 0.002])
+            self._fp.write(data[:cut])
+            self._fp.flush()
+            time.sleep(pause)                                       # a prefix is visible
+            self._fp.write(data[cut:])
+            self._fp.flush()
+        else:
+            self._fp.write(data)
+        self._written += len(data)
+        return len(data)
+
+    def close(self):
+        if not self._closed:
+            self._closed = True
+            with self._shim.lock:
+                self._shim.writes_in_progress -= 1
+            self._fp.close()
+
+    def __enter__(self):
+        return self
+
+    def __exit__(self, *exc):
+        self.close()
+        return False
+
+    def __getattr__(self, name):
+        return getattr(self._fp, name)
 
 
 def writer_crash(chk: Check, sc: Scratch, stride: int, handlers, hl_name: str, n_entries: int = 6) -> None:
@@ -168,7 +252,6 @@ def writer_crash(chk: Check, sc: Scratch, stride: int, handlers, hl_name: str, n
     t.file("sub/x.txt", "x")
     t.materialize(root)
     site = driver.Site(root, handlers=handlers, overrides={("handlers.dir.DirHandler", "cachetime"): "1000"})
-    saved = dirmod.pickle
     try:
         req0, _ = reqs.render("gopher", b"/")
         cpath = os.path.join(os.fsencode(root), CACHE)
@@ -195,35 +278,77 @@ def writer_crash(chk: Check, sc: Scratch, stride: int, handlers, hl_name: str, n
             past = time.time() - 5000
             os.utime(cpath, (past, past))
 
+        def forked(n: int, ignore_signal: bool) -> typing.Tuple[int, typing.Optional[bytes]]:
+            """A forked copy of the harness serves the rewriting request under RLIMIT_FSIZE=n.  With the
+            default SIGXFSZ the kernel kills it at byte n (-> (status, None)); with the signal ignored the
+            write fails with EFBIG as on a full disk, and the copy then serves a *second* request with the
+            disk still full, whose reply comes back through a pipe."""
+            rfd, wfd = os.pipe()
+            sys.stdout.flush()
+            sys.stderr.flush()
+            with warnings.catch_warnings():
+                warnings.simplefilter("ignore")
+                pid = os.fork()
+            if pid == 0:
+                try:
+                    os.close(rfd)
+                    signal.signal(signal.SIGXFSZ, signal.SIG_IGN if ignore_signal else signal.SIG_DFL)
+                    resource.setrlimit(resource.RLIMIT_FSIZE, (n, resource.getrlimit(resource.RLIMIT_FSIZE)[1]))
+                    site.request(req0)
+                    if ignore_signal:
+                        second = site.request(req0).data
+                        os.write(wfd, b"R" + second)
+                finally:
+                    os._exit(0)
+            os.close(wfd)
+            chunks = []
+            while True:
+                c = os.read(rfd, 65536)
+                if not c:
+                    break
+                chunks.append(c)
+            os.close(rfd)
+            _, status = os.waitpid(pid, 0)
+            data = b"".join(chunks)
+            return status, (data[1:] if data[:1] == b"R" else None)
+
         for j, n in enumerate(cuts):
-            for mode in ("killed", "disk-full"):
+            for mode in ("killed", "disk-full", "disk-full-kernel"):
                 stale()
+                second = None
                 if mode == "killed":
-                    sys.stdout.flush()
-                    sys.stderr.flush()
-                    with warnings.catch_warnings():
-                        warnings.simplefilter("ignore")
-                        pid = os.fork()
-                    if pid == 0:
-                        try:
-                            signal.signal(signal.SIGXFSZ, signal.SIG_DFL)
-                            resource.setrlimit(resource.RLIMIT_FSIZE, (n, resource.getrlimit(resource.RLIMIT_FSIZE)[1]))
-                            site.request(req0)
-                        finally:
-                            os._exit(0)
-                    _, status = os.waitpid(pid, 0)
+                    status, _ = forked(n, False)
                     if os.WIFSIGNALED(status) and os.WTERMSIG(status) == signal.SIGXFSZ:
                         chk.count("writers_killed_by_kernel")
                     elif n < size:
                         chk.count("writers_not_killed")
+                elif mode == "disk-full-kernel":
+                    if j % 4:
+                        continue
+                    status, second = forked(n, True)
+                    if second is None:
+                        chk.count("full_disk_copies_without_second_reply")
+                    else:
+                        chk.count("second_requests_on_a_still_full_disk")
+                        if n < size and validate.normalize_ts(second) != ref["gopher"]:
+                            chk.witness("C11/request-on-full-disk-after-cut-off-cache:%s" % (
+                                "empty-reply" if not second else "error-or-wrong-listing"),
+                                {"handler": hl_name, "file_size_limit": n, "new_size": size, "reply": second[:300]})
+                            return
                 else:
-                    shim = DiskFullShim(n)
-                    dirmod.pickle = shim
+                    shim = CacheFileShim(full_after=n)
+                    shim.install()
                     try:
                         site.request(req0)
+                        # the disk is still full when the next request comes
+                        r2 = site.request(req0)
                     finally:
-                        dirmod.pickle = saved
-                    chk.count("writers_hit_full_disk", shim.fired)
+                        shim.remove()
+                    chk.count("writers_hit_full_disk", shim.enospc_raised)
+                    if n < size and shim.enospc_raised and (validate.normalize_ts(r2.data) != ref["gopher"] or r2.escaped):
+                        chk.witness("C11/request-on-full-disk-after-cut-off-cache:%s" % ("empty-reply" if not r2.data else "error-or-wrong-listing"),
+                                    {"handler": hl_name, "bytes_until_full": n, "new_size": size, "reply": r2.data[:300], "log": r2.log[:3]})
+                        return
                 try:
                     left = open(cpath, "rb").read()
                 except OSError:
@@ -244,53 +369,7 @@ def writer_crash(chk: Check, sc: Scratch, stride: int, handlers, hl_name: str, n
                                                           "left_on_disk": None if left is None else len(left)}
                          if j % 101 == 0 else None)
     finally:
-        dirmod.pickle = saved
         site.close()
-
-
-class PickleShim:
-    """Stands in for the `pickle` name inside pygopherd.handlers.dir: same results, but the
-    dump is written in two halves with a pause in between (the window in which a reader can
-    observe a truncated file), and loads are classified by what they saw."""
-
-    def __init__(self, rng):
-        self.lock = threading.Lock()
-        self.rng = rng
-        self.dumps_in_progress = 0
-        self.n_loads = self.n_dumps = self.loads_overlapping_dump = self.partial_reads = 0
-        for name in ("HIGHEST_PROTOCOL", "PickleError", "UnpicklingError", "PicklingError", "loads", "dumps"):
-            setattr(self, name, getattr(real_pickle, name))
-
-    def load(self, fp):
-        data = fp.read()
-        with self.lock:
-            self.n_loads += 1
-            if self.dumps_in_progress:
-                self.loads_overlapping_dump += 1
-        try:
-            return real_pickle.loads(data)
-        except Exception:
-            with self.lock:
-                self.partial_reads += 1
-            raise
-
-    def dump(self, obj, fp, protocol=None):
-        data = real_pickle.dumps(obj, protocol)
-        with self.lock:
-            self.n_dumps += 1
-            self.dumps_in_progress += 1
-            cut = self.rng.randrange(0, len(data))
-            pause = self.rng.choice([0.0002, 0.001, 0.002])
-        try:
-            time.sleep(pause)            # file is open and truncated, nothing written yet
-            fp.write(data[:cut])
-            fp.flush()
-            time.sleep(pause)            # a prefix is visible
-            fp.write(data[cut:])
-            fp.flush()
-        finally:
-            with self.lock:
-                self.dumps_in_progress -= 1
 
 
 def reader_writer_race(chk: Check, sc: Scratch, rounds: int, per_round: int) -> None:
@@ -299,9 +378,8 @@ def reader_writer_race(chk: Check, sc: Scratch, rounds: int, per_round: int) -> 
     gen_dir(rng, 6).materialize(root)
     site = driver.Site(root, overrides={("handlers.dir.DirHandler", "cachetime"): "1000"})
     ref = references(site, root, b"/")
-    shim = PickleShim(rng)
-    saved = dirmod.pickle
-    dirmod.pickle = shim
+    shim = CacheFileShim(rng, pause=True)
+    shim.install()
     sys.setswitchinterval(1e-5)
     old_stderr = sys.stderr
     sys.stderr = io.StringIO()
@@ -349,7 +427,7 @@ def reader_writer_race(chk: Check, sc: Scratch, rounds: int, per_round: int) -> 
             chk.note_inconclusive("only %d reads overlapped a write" % (shim.loads_overlapping_dump + shim.partial_reads))
     finally:
         sys.stderr = old_stderr
-        dirmod.pickle = saved
+        shim.remove()
         sys.setswitchinterval(0.005)
         site.close()
 
@@ -381,8 +459,9 @@ def main() -> int:
              "write are counted); plus the writer itself dying after N bytes (a forked copy of the harness serves the "
              "rewriting request under RLIMIT_FSIZE=N and is killed by the kernel's SIGXFSZ; or the write fails with "
              "ENOSPC after N bytes) while an expired cache of the directory's previous contents is on disk",
-        assumptions=["the pause between truncation and completion of the dump is inserted by substituting the name "
-                     "`pickle` inside pygopherd.handlers.dir with a delegating shim (harness-side, no source change)"],
+        assumptions=["pauses between truncation and completion of a cache write, and ENOSPC after N bytes, are inserted by "
+                     "shadowing the name `open` inside pygopherd.handlers.base with a delegating proxy for the cache file "
+                     "(harness-side, no source change; counters show it was reached); the kernel-made variants need none"],
         exhaustive=False)
 
 
